@@ -35,6 +35,9 @@ func (t *Trie) Insert(word string) {
 }
 
 func (t *Trie) IsPrefixMatch(word string) bool {
+	if t.root.isEnd { // the empty prefix was inserted: it is a prefix of every word
+		return true
+	}
 	node := t.root
 	for i := 0; i < len(word); i++ {
 		ch := rune(word[i]) // per byte, not per rune: keys are binary and every invalid UTF-8 byte ranges as U+FFFD
